@@ -490,7 +490,6 @@ Proof.
   - eapply sited_incl; [| |apply emit_texts_sited]; [intros k Ik; apply in_or_app; right; exact Ik|].
     intros nm g X. right. exact X.
 Qed.
-Print Assumptions emit_program_sited.
 
 (* ====================================================================================================================== *)
 (* PART 2: the rule, position by position                                                                                 *)
@@ -570,7 +569,6 @@ Theorem marker_rule opt path prog is :
   ((forall pre' l, pre <> pre' ++ [IMarker l]) /\
    (invented (header_label prog) i \/ (exists pre' q, pre = pre' ++ [q] /\ continues q i) \/ autovar_of (program_constructs prog) i post)).
 Proof. intros E. apply sited_rule. eapply emit_program_sited; exact E. Qed.
-Print Assumptions marker_rule.
 
 Theorem script_marker_rule path tl name glob opt body is :
   emit_script (Some path) tl name glob opt body = Ok is ->
@@ -579,7 +577,6 @@ Theorem script_marker_rule path tl name glob opt body is :
   ((forall pre' l, pre <> pre' ++ [IMarker l]) /\
    (invented (script_label name glob) i \/ (exists pre' q, pre = pre' ++ [q] /\ continues q i) \/ autovar_of (body_constructs body) i post)).
 Proof. intros E. apply sited_rule. eapply emit_script_sited; exact E. Qed.
-Print Assumptions script_marker_rule.
 
 (* M2.  Kinds that are always announced: the first instruction of every condition test (compare / goto_if_set /
         goto_if_unset / checktrainerflag), every switch and every case line has a marker directly before it. *)
@@ -587,7 +584,6 @@ Theorem tests_switches_cases_are_marked opt path prog is :
   emit_program_instrs opt (Some path) prog = Ok is ->
   forall pre i post, is = pre ++ i :: post -> is_test_or_case i = true -> exists pre' l, pre = pre' ++ [IMarker l].
 Proof. intros E. eapply sited_tests_marked. eapply emit_program_sited; exact E. Qed.
-Print Assumptions tests_switches_cases_are_marked.
 
 (* M3.  Kinds that are never announced: goto, the jump half of a test (goto_if_eq ..., goto_if 1/0), return, end, blank
         lines - and a marker never follows a marker. *)
@@ -595,7 +591,6 @@ Theorem generated_kinds_are_unmarked opt path prog is :
   emit_program_instrs opt (Some path) prog = Ok is ->
   forall pre i post, is = pre ++ i :: post -> is_generated_kind i = true -> forall pre' l, pre <> pre' ++ [IMarker l].
 Proof. intros E. eapply sited_generated_unmarked. eapply emit_program_sited; exact E. Qed.
-Print Assumptions generated_kinds_are_unmarked.
 
 (* M4.  Verbatim lines (raw lines, steps, items, map script lines, table entries): every one except the five fixed lines
         has a marker directly before it. *)
@@ -609,7 +604,6 @@ Proof.
   - destruct X as (pre' & q & _ & d & c & c' & X & _). discriminate X.
   - destruct X as (c & l & j & post' & X & _). discriminate X.
 Qed.
-Print Assumptions lines_are_marked.
 
 (* M5.  Commands: every command line has a marker directly before it, except the AutoVar command of a condition: that
         one stands directly before the marker and the test of its condition. *)
@@ -629,7 +623,6 @@ Proof.
   - destruct X as (pre' & q & _ & d & c0 & c' & X & _). discriminate X.
   - right. split; [exact NM|]. destruct X as (c0 & l & j & post' & X & -> & I0 & P & SH). injection X as <-. exists l, j, post'. auto.
 Qed.
-Print Assumptions commands_are_marked.
 
 (* M6.  Labels: every label line that is not a header label has a marker directly before it (label statements, the labels
         of movements and marts). *)
@@ -643,7 +636,6 @@ Proof.
   - destruct X as (pre' & q & _ & d & c & c' & X & _). discriminate X.
   - destruct X as (c & l & j & post' & X & _). discriminate X.
 Qed.
-Print Assumptions labels_are_marked.
 
 (* the constructs of a script body are commands, labels, conditions, switch operands and cases *)
 Definition body_kind (k : construct) : Prop :=
@@ -702,7 +694,6 @@ Proof.
   - right. destruct X as (pre' & q & -> & d0 & c0 & c' & X & ->). injection X as <- _. exists pre', c'. reflexivity.
   - destruct X as (c0 & l & j & post' & X & _). discriminate X.
 Qed.
-Print Assumptions data_lines_marked_once.
 
 (* ====================================================================================================================== *)
 (* PART 3: the markers of a program, in order                                                                             *)
@@ -928,12 +919,10 @@ Proof.
   destruct (emit_tops (Some path) (map xname (texts prog)) opt (tops prog) 0) as [[x n]| | | |] eqn:ET; try discriminate. injection E as <-.
   unfold program_lines. rewrite markers_of_app, (markers_emit_tops _ _ _ _ _ _ _ ET), markers_emit_texts. reflexivity.
 Qed.
-Print Assumptions program_markers.
 
 Theorem script_markers path tl name glob opt body is :
   emit_script (Some path) tl name glob opt body = Ok is -> markers_of is = script_lines opt body.
 Proof. apply markers_emit_script. Qed.
-Print Assumptions script_markers.
 
 (* M9.  Counting: the -lm output is longer than the -lm=false output by exactly the number of announced constructs. *)
 Theorem marker_count opt path prog is is0 :
@@ -945,7 +934,6 @@ Proof.
   pose proof (emit_program_transparent opt path prog) as T. unfold rel_res in T. rewrite E, E0 in T. subst is0.
   rewrite <- M. apply markers_length.
 Qed.
-Print Assumptions marker_count.
 
 (* ====================================================================================================================== *)
 (* PART 3b: the markers of a script, from its source                                                                       *)
@@ -1314,7 +1302,6 @@ Proof.
   intros HW SO. unfold emit_graph in HW. pose proof (work_sites _ _ _ (NameClash.emit_graph_inv0 body SO) HW) as P.
   cbn [remaining finals CMrem FMrem flat_map] in P. unfold CM in P. cbn [cstmts cbr mk branch_sites] in P. rewrite !app_nil_r in P. exact P.
 Qed.
-Print Assumptions graph_sites_from_source.
 
 Lemma get_chunk_self : forall G c, NoDup (map cid G) -> In c G -> get_chunk G (cid c) = Some c.
 Proof.
@@ -1348,7 +1335,6 @@ Proof.
   destruct (WorkShape.final_graph_shape body w G SO) as (D & _).
   etransitivity; [apply graph_lines_perm; exact D|]. apply Permutation_map. apply graph_sites_from_source; assumption.
 Qed.
-Print Assumptions script_markers_from_source.
 
 Local Opaque work_fuel work emit_script emit_graph.
 
@@ -1449,14 +1435,12 @@ Proof.
   destruct (emit_tops (Some path) (map xname (texts prog)) opt (tops prog) 0) as [[x n]| | | |] eqn:ET; try discriminate. injection E as <-.
   unfold program_src_lines. rewrite markers_of_app, markers_emit_texts. apply Permutation_app_tail. eapply perm_tops; eassumption.
 Qed.
-Print Assumptions program_markers_from_source.
 
 (* the number of markers is the number of announced constructs of the source, whatever the chunk order *)
 Corollary program_marker_count_from_source opt path prog is :
   emit_program_instrs opt (Some path) prog = Ok is -> Forall Worklist.src_ok (ProgWf.bodies_of (tops prog)) ->
   List.length (markers_of is) = List.length (program_src_lines prog).
 Proof. intros E F. apply Permutation_length. eapply program_markers_from_source; eassumption. Qed.
-Print Assumptions program_marker_count_from_source.
 
 (* ====================================================================================================================== *)
 (* PART 4: a concrete program; no predicate on single instructions decides the markers                                    *)
@@ -1482,7 +1466,6 @@ Proof.
   injection H as <-. exists prog, is. split; [reflexivity|]. split; [exact HE|]. split; [reflexivity|].
   split; [eapply program_markers; exact HE|eapply marker_rule; exact HE].
 Qed.
-Print Assumptions compile_marker_rule.
 
 (* M14.  ... and, from the source alone: the markers of the output of an accepted source text are, up to order, the lines of
          its announced constructs (no hypothesis left: every accepted body passes the source check, ProgSrc) *)
@@ -1500,7 +1483,6 @@ Proof.
   eapply program_markers_from_source; [exact HE|].
   eapply Forall_impl; [|exact (ProgSrc.accepted_bodies_are_src_ok _ _ _ _ _ _ _ _ _ _ _ HP)]. intros b [X _]. exact X.
 Qed.
-Print Assumptions compile_markers_from_source.
 
 Module SiteExamples.
 Import MarkerExamples.
@@ -1628,5 +1610,4 @@ Proof.
   - assert (E3 : firstn 32 is1 = firstn 31 is1 ++ [nth 31 is1 IBlank]) by (vm_compute; reflexivity).
     rewrite E3 in E. apply app_inj_tail in E. destruct E as [_ E]. vm_compute in E. discriminate E.
 Qed.
-Print Assumptions no_instruction_predicate_decides_markers.
 End SiteExamples.
